@@ -51,7 +51,8 @@ OPS = CTORS + [
     "copy()", "copy(dtype=complex)",
     "a+b", "a-1.5", "a*b", "a/b", "a**2",
     "a+=b", "a-=1.5", "a*=b", "a/=2.0", "a**=2",
-    "a.data=arr", "fc[0]=b",
+    "a.data=arr", "fc[0]=b", "fc[label]=b",
+    "v[0]=b", "v[axis]=b", "v[0]=arr", "t[0,d-1]=b", "t[axis,axis]=b", "t[0,d-1]=2.5",
     "-a", "a.real", "a.conjugate()",
     "laplace(bc)", "gradient(bc)", "laplace(bc,out=b)", "gradient(bc,out=b)",
     "dot(b)", "dot(b,out=c)", "outer_product(b)", "outer_product(b,out=c)",
@@ -67,6 +68,19 @@ OPS_THOROUGH_ONLY = [
 ]
 MODEL_AXES = {"UnitGrid": 1, "CartesianGrid": 2, "PolarSymGrid": 1, "CylindricalSymGrid": 2}
 SLICEABLE = {"CartesianGrid", "CylindricalSymGrid"}  # project()/slice() are implemented for these only
+# component assignments: op -> (kind of the target, which component, kind of the value)
+COMP_ASSIGN = {
+    "v[0]=b": ("V", "first", "field"), "v[axis]=b": ("V", "last", "field"), "v[0]=arr": ("V", "first", "array"),
+    "t[0,d-1]=b": ("T", "first-last", "field"), "t[axis,axis]=b": ("T", "last-first", "field"),
+    "t[0,d-1]=2.5": ("T", "first-last", "number"),
+}
+
+
+def comp_index(which, dim):
+    """flat (row-major) index of the assigned component"""
+    return {"first": 0, "last": dim - 1, "first-last": dim - 1, "last-first": (dim - 1) * dim}[which]
+
+
 INPLACE = {"a+=b": "add", "a-=1.5": "subtract", "a*=b": "multiply", "a/=2.0": "true_divide", "a**=2": "power"}
 
 
@@ -161,9 +175,16 @@ class Model:
         if op in ("a+=b", "a*=b"):
             return [(i, j) for i in idx for j in idx
                     if (H[j].kind == "S" or same(H[i], H[j])) and (H[i].cx or not H[j].cx)]
-        if op == "fc[0]=b":
+        if op in ("fc[0]=b", "fc[label]=b"):
+            mi = 0 if op == "fc[0]=b" else -1
             return [(i, j) for i in col for j in fld
-                    if H[j].kind in ("S", H[i].members[0].kind) and (H[i].members[0].cx or not H[j].cx)]
+                    if H[j].kind in ("S", H[i].members[mi].kind) and (H[i].members[mi].cx or not H[j].cx)]
+        if op in COMP_ASSIGN:
+            kind, _, val = COMP_ASSIGN[op]
+            if val != "field":
+                return [(i,) for i in idx if H[i].kind == kind]
+            return [(i, j) for i in idx for j in idx
+                    if H[i].kind == kind and H[j].kind == "S" and (H[i].cx or not H[j].cx)]
         if op == "laplace(bc)":
             return [(i,) for i in idx if H[i].kind == "S"]
         if op == "gradient(bc)":
@@ -261,8 +282,12 @@ class Model:
             return new(self.duplicate(a, op, False))
         if op in INPLACE or op == "a.data=arr":
             return Effect(None, wv=a.cells(), outcome="write valid cells")
-        if op == "fc[0]=b":
-            return Effect(None, wv=a.members[0].cells(), outcome="write valid cells of member")
+        if op in ("fc[0]=b", "fc[label]=b"):
+            m = a.members[0 if op == "fc[0]=b" else -1]
+            return Effect(None, wv=m.cells(), outcome="write valid cells of member")
+        if op in COMP_ASSIGN:  # only the valid cells of exactly that component
+            return Effect(None, wv=[(a.buf, a.off + comp_index(COMP_ASSIGN[op][1], dim))],
+                          outcome="write valid cells of one component")
         if op == "laplace(bc)":
             return new(self.fresh(a.kind, a.cx, op), wg=a.cells())
         if op == "gradient(bc)":
@@ -422,6 +447,16 @@ class World:
             return None
         if op == "fc[0]=b":
             a[0] = b
+            return None
+        if op == "fc[label]=b":
+            a.labels = [f"m{k}" for k in range(len(a))]
+            a[f"m{len(a) - 1}"] = b
+            return None
+        if op in COMP_ASSIGN:
+            which, val = COMP_ASSIGN[op][1:]
+            key = {"first": 0, "last": self.axes[-1], "first-last": (0, dim - 1),
+                   "last-first": (self.axes[-1], self.axes[0])}[which]
+            a[key] = b if val == "field" else (2.5 if val == "number" else self.vals(tuple(g.shape), 91))
             return None
         if op == "-a":
             return -a
@@ -659,15 +694,20 @@ def step(W, M, op, args, check=True):
             exp, got = W.vals(tv.shape, 90), R[args[0]].data
         else:
             exp, got = None, None
-        if op == "fc[0]=b":  # through the collection (model: member 0 lives where the model says)
-            m0 = H[args[0]].members[0]
+        if op in COMP_ASSIGN:
+            which, val = COMP_ASSIGN[op][1:]
+            got = R[args[0]].data.reshape((-1,) + tuple(W.grid.shape))[comp_index(which, W.dim)]
+            exp = np.broadcast_to(before[args[1]][W.vidx] if val == "field" else
+                                  (2.5 if val == "number" else W.vals(tuple(W.grid.shape), 91)), got.shape)
+        if op in ("fc[0]=b", "fc[label]=b"):  # through the collection (model: the member lives where the model says)
+            m0 = H[args[0]].members[0 if op == "fc[0]=b" else -1]
             if m0.buf == H[args[0]].buf:
                 got = R[args[0]].data[m0.off:m0.off + m0.n]
                 src = before[args[1]][W.vidx].reshape((-1,) + tuple(W.grid.shape))
                 exp = np.broadcast_to(src, got.shape)
         # (values: same numpy ufunc on the saved operands; 1e-12 covers numpy's scalar-power fast paths)
         if exp is not None and not np.allclose(np.asarray(got), exp, rtol=1e-12, atol=0.0):
-            t = f" [{TAG}]" if TAG in H[args[0]].prov or (op == "fc[0]=b" and H[args[0]].copying) else ""
+            t = f" [{TAG}]" if TAG in H[args[0]].prov or (op in ("fc[0]=b", "fc[label]=b") and H[args[0]].copying) else ""
             viol.append(_v(W, op, f"target does not hold the written values{t}", f"{got!r} != {exp!r}"))
     # ---- every pair of handles: np.shares_memory == model ----
     cellsets = [set(m.cells()) for m in H]
